@@ -344,8 +344,28 @@ fn queries(run: &mut Run, rng: &mut Rng) {
     }
     for it in 0..n {
         let wide = rng.chance(1, 2);
-        let l = gen_rows(rng, if wide { 12 } else { 6 }, wide);
-        let r = gen_rows(rng, if wide { 12 } else { 6 }, wide);
+        let mut l = gen_rows(rng, if wide { 12 } else { 6 }, wide);
+        let mut r = gen_rows(rng, if wide { 12 } else { 6 }, wide);
+        // a third of the inputs carry NULLs only in the SECOND key column (the leading key is NULL-free)
+        if rng.chance(1, 3) {
+            for row in l.iter_mut().chain(r.iter_mut()) {
+                if row[0].is_none() {
+                    row[0] = Some(1);
+                }
+                if rng.chance(1, 3) {
+                    row[1] = None;
+                }
+            }
+            run.count("inputs_with_nulls_only_in_second_key");
+        } else if rng.chance(1, 3) {
+            // NULL-heavy leading key: a TopK boundary row then has NULL in a non-last sort key
+            for row in l.iter_mut().chain(r.iter_mut()) {
+                if rng.chance(2, 3) {
+                    row[0] = None;
+                }
+            }
+            run.count("inputs_with_null_heavy_leading_key");
+        }
         let lparts = 1 + rng.below(3) as usize;
         let rparts = 1 + rng.below(3) as usize;
         let (ls, lb) = table(["l_a", "l_b", "l_x"], &l, lparts, rng);
@@ -364,7 +384,7 @@ fn queries(run: &mut Run, rng: &mut Rng) {
         // ---------------- the query
         let is_topk = rng.chance(1, 4);
         let sql = if is_topk {
-            let k = rng.below(5);
+            let k = if rng.chance(1, 2) { rng.below(5) } else { rng.below(13) };
             let (dir, nulls) = (*rng.pick(&["ASC", "DESC"]), *rng.pick(&["NULLS FIRST", "NULLS LAST"]));
             let tbl = if rng.chance(1, 2) { ("l", "l_a", "l_b", "l_x") } else { ("r", "r_c", "r_d", "r_y") };
             run.count("query_topk");
